@@ -28,7 +28,7 @@ ASSUMPTIONS = ["state lifetime is an interval: idle < MAX_TRANSMIT_WAIT must sti
                "for NUM>0 the slice may come from the latest block-0 rendering or from the latest rendering that needed "
                "block-wise transfer, when these differ; when the latest rendering went out complete in one response a "
                "later-block request may also be refused with 4.08"]
-EXPECTED_PROBES = ["continue_231", "final_block_handler", "gap_or_overlap", "unknown_transfer", "expired_transfer",
+EXPECTED_PROBES = ["upload_restarted_while_handler_busy", "wrong_payload_length_block0", "continue_231", "final_block_handler", "gap_or_overlap", "unknown_transfer", "expired_transfer",
                    "wrong_payload_length", "block2_slice", "block2_beyond_end", "block2_without_rendering",
                    "interleaved_keys", "lifetime_gray_zone", "restart_at_zero", "concurrent_requests", "assembly_in_front_of_a_site",
                    "representation_changes_between_block0_requests"]
